@@ -55,6 +55,19 @@ fn property(id: &str) -> Option<(Registry, Option<Gen>)> {
         "C19" => (nightly_os::C19, Some(nightly_os::c19 as Gen)),
         #[cfg(feature = "nightly")]
         "C18" => (nightly::C18, Some(nightly::c18 as Gen)),
+        // simd flavour: BLAKE2b in any chunking == one-shot == libsodium, with dryoc built on its portable-SIMD backend
+        #[cfg(all(feature = "simd", not(feature = "nightly")))]
+        "C18" => {
+            // every BLAKE2b consumer with the SIMD backend compiled in: any chunking == one-shot == libsodium (C08), all
+            // digest / key lengths (C07), and the KDF (salt = subkey id, personal = context: the parameter block)
+            let all: Vec<(&'static str, CaseFn)> = hash::C08.iter().chain(hash::C07.iter()).chain(misc::C12.iter()).cloned().collect();
+            fn c18_simd(ctx: &mut Ctx) -> Search {
+                misc::c12(ctx)?;
+                hash::c08(ctx)?;
+                hash::c07(ctx)
+            }
+            (Box::leak(all.into_boxed_slice()), Some(c18_simd as Gen))
+        }
         // properties about memory protection, build configurations and the
         // type system: nothing to replay against libsodium
         "C14" | "C15" | "C18" | "C19" | "C20" => (&[], None),
